@@ -2,6 +2,7 @@ import PhyVerif.Model.C07
 import PhyVerif.Spec.C07
 import PhyVerif.Lemmas.C07
 import PhyVerif.Lemmas.C07b
+import PhyVerif.Lemmas.C07c
 /-!
 # C07 — spike-cluster index utilities partition the spikes
 Only property theorems + non-vacuity examples; proofs in `Lemmas/C07.lean`.
@@ -129,5 +130,16 @@ example : spikesPerCluster 32 true [1, 0, 1] (some [10, 20, 30]) = [(0, [20]), (
 example : spikesPerCluster 32 true [1, 0, 1] (some [30, 20, 10]) = [(0, [20]), (1, [30, 10])] := by decide
 example : [10, 20, 30].Pairwise (· < ·) := by decide
 example : ((specGroups [1, 0, 1] (some [30, 20, 10])).map (·.2)).flatten = [20, 30, 10] := by decide
+
+/-- The per-cluster template histogram CONSERVES the cluster's spikes: its entries sum to the number of spikes of the
+cluster (no spike of the cluster is dropped or counted twice, whatever the templates are) — the whole-histogram
+companion of the entry-wise `templateCounts_spec`. -/
+theorem templateCounts_sum (sc st : List Nat) (nt c : Nat) (hlen : st.length = sc.length)
+    (hst : ∀ t ∈ st, t < nt) :
+    (templateCounts sc st nt c).sum = (spikesInClusters sc [c]).length :=
+  Lemmas.templateCounts_sum sc st nt c hlen hst
+
+example : templateCounts [3, 5, 3, 3, 5] [0, 2, 2, 0, 1] 4 3 = [2, 0, 1, 0] ∧
+    ([2, 0, 1, 0] : List Nat).sum = 3 ∧ spikesInClusters [3, 5, 3, 3, 5] [3] = [0, 2, 3] := by decide
 
 end PhyVerif.C07
